@@ -396,6 +396,12 @@ func (w *Writer) appendEntry(e types.LogEntry) error {
 			w.info.BaseIndex, e.Index, w.info.BaseIndex+uint64(len(offsets)))
 	}
 
+	// Readers refuse frames longer than MaxEntrySize as corrupt, so refuse to
+	// write (and acknowledge) an entry that could never be read back.
+	if len(e.Data) > MaxEntrySize {
+		return ErrTooBig
+	}
+
 	fh := frameHeader{
 		typ: FrameEntry,
 		len: uint32(len(e.Data)),
